@@ -489,6 +489,7 @@ fn parse_cmd(t: &[&str]) -> Cmd {
     match t[0] {
         "yankpop" => Cmd::YankPop,
         "accept" => Cmd::AcceptLine,
+        "acceptend" => Cmd::AcceptOrInsertLine { accept_in_the_middle: false },
         "newline" => Cmd::Newline,
         "abort" => Cmd::Abort,
         "bol" => Cmd::Move(Movement::BeginningOfLine),
